@@ -74,6 +74,8 @@ pub struct ScriptedReader<'a> {
     end: End,
     pub supplied: usize,
     pub end_reported: bool,
+    /// the reader's last answer was WouldBlock (nothing further has arrived)
+    pub last_block: bool,
 }
 
 #[derive(Clone, Copy, Debug, PartialEq)]
@@ -94,6 +96,7 @@ impl<'a> ScriptedReader<'a> {
             end,
             supplied: 0,
             end_reported: false,
+            last_block: false,
         }
     }
     pub fn exhausted(&self) -> bool {
@@ -105,11 +108,16 @@ impl<'a> Read for ScriptedReader<'a> {
     fn read(&mut self, buf: &mut [u8]) -> io::Result<usize> {
         if self.pending_block {
             self.pending_block = false;
+            self.last_block = true;
             return Err(io::ErrorKind::WouldBlock.into());
         }
+        self.last_block = false;
         if self.pos >= self.data.len() {
             return match self.end {
-                End::Quiet => Err(io::ErrorKind::WouldBlock.into()),
+                End::Quiet => {
+                    self.last_block = true;
+                    Err(io::ErrorKind::WouldBlock.into())
+                }
                 End::Eof => {
                     self.end_reported = true;
                     Ok(0)
@@ -162,6 +170,11 @@ pub struct RunResult {
     /// per read_from call: (bytes supplied so far, frames handed so far, returned count or None)
     pub calls: Vec<(usize, usize, Option<usize>)>,
     pub handed_after_error: bool,
+    /// a read_from call returned Ok although the reader's last answer was not WouldBlock, and the
+    /// following call(s) - which a caller woken by readiness edges never makes - handed over
+    /// frames or reported the end of the stream: (bytes supplied at the early return, frames
+    /// handed over late, end reported late)
+    pub early_return: Option<(usize, usize, bool)>,
 }
 
 /// Drive a FrameBuffer over `data` with the given cut script until the stream is exhausted.
@@ -172,12 +185,30 @@ pub fn drive(data: &[u8], cuts: &[(u16, bool)], end: End) -> RunResult {
     let mut calls = Vec::new();
     let mut terminal = Terminal::None;
     let mut quiet_rounds = 0;
+    // bytes supplied when a call returned Ok without the reader having answered WouldBlock; every
+    // byte supplied from there to the next WouldBlock had already arrived at that moment
+    let mut unsolicited: Option<usize> = None;
+    let mut early_return: Option<(usize, usize, bool)> = None;
     loop {
         let before = rd.supplied;
+        let handed_before = frames.len();
         let res = fb.read_from(&mut rd, |f| {
             frames.push(f);
             Ok(())
         });
+        if let Some(at) = unsolicited {
+            let late = frames.len() - handed_before;
+            let end_late = res.is_err();
+            if late > 0 || end_late {
+                let e = early_return.get_or_insert((at, 0, false));
+                e.1 += late;
+                e.2 |= end_late;
+            }
+        }
+        unsolicited = match &res {
+            Ok(_) if !rd.last_block => Some(unsolicited.unwrap_or(rd.supplied)),
+            _ => None,
+        };
         match res {
             Ok(n) => {
                 calls.push((rd.supplied, frames.len(), Some(n)));
@@ -217,6 +248,7 @@ pub fn drive(data: &[u8], cuts: &[(u16, bool)], end: End) -> RunResult {
         terminal,
         calls,
         handed_after_error: false,
+        early_return,
     }
 }
 
@@ -306,7 +338,7 @@ fn judge(
     }
     // (b) promptness after every successful call; (c) is checked inside drive()
     for (supplied, handed, ret) in &r.calls {
-        let complete = refs.iter().filter(|(end, _)| end <= supplied).count();
+        let complete = refs.partition_point(|(end, _)| end <= supplied);
         if ret.is_some() && *handed != complete {
             return Err((
                 if *handed < complete { "frame-handed-over-late".into() } else { "frame-handed-over-early".into() },
@@ -353,23 +385,172 @@ fn judge(
     Ok(())
 }
 
+/// What becomes of bytes a `read_from` call left behind depends on its caller: the I/O loop
+/// registers the socket edge-triggered and calls `read_from` once per readiness event, so today
+/// they are stranded; a loop that came back for them would make an early return harmless. An early
+/// return seen at the FrameBuffer is therefore put to the real client once per process: a session
+/// on the mock transport receives a burst (8192 deliveries, about 1 MB, no would-block) - or one
+/// delivery with the end of the stream right behind it - and only if frames or the stream's end are
+/// late *there* is the early return a violation. Some(text) = confirmed end to end.
+fn early_return_confirmed(frames_late: bool) -> Result<Option<String>, String> {
+    use std::sync::OnceLock;
+    static FRAMES: OnceLock<Result<Option<String>, String>> = OnceLock::new();
+    static END: OnceLock<Result<Option<String>, String>> = OnceLock::new();
+    if frames_late {
+        FRAMES
+            .get_or_init(|| {
+                // (stranded bytes can be rescued by an unrelated wake-up, so one clean session
+                // proves nothing: confirmed if any attempt shows the loss)
+                let mut last = Ok(None);
+                for _ in 0..2 {
+                    let o = crate::checks::c03::exec_flood(&crate::checks::c03::FloodCase { backlog: 8192, body_len: 39 });
+                    last = match (o.fail, o.inconclusive) {
+                        (Some(f), _) => return Ok(Some(format!("end to end (a burst of 8192 deliveries to a live session): {}: {}", f.sig, f.msg))),
+                        (None, Some(i)) => Err(i),
+                        (None, None) => Ok(None),
+                    };
+                }
+                last
+            })
+            .clone()
+    } else {
+        END.get_or_init(|| {
+            let mut last = Ok(None);
+            for _ in 0..3 {
+                last = end_behind_frames_session();
+                if let Ok(Some(_)) = last {
+                    break;
+                }
+            }
+            last
+        })
+        .clone()
+    }
+}
+
+/// A live session whose server sends one delivery and hangs up, both readable at once.
+fn end_behind_frames_session() -> Result<Option<String>, String> {
+    use crate::broker::{content_frames, AutoBroker, ServerCfg};
+    use crate::session::{open_session, timed, ClientCfg};
+    use amiquip::{ConsumerMessage, ConsumerOptions};
+    use amq_protocol::protocol::basic;
+    use amq_protocol::protocol::AMQPClass;
+    use std::time::Duration;
+    let mut sess = open_session(&ClientCfg::default(), ServerCfg::default(), vec![], AutoBroker::new(3));
+    let conn = match sess.conn.take() {
+        Some(c) => c,
+        None => {
+            let _ = sess.broker.stop();
+            return Err(format!("open failed {:?}", sess.open_error));
+        }
+    };
+    let wire = sess.wire.clone();
+    let w2 = wire.clone();
+    let res = timed(Duration::from_secs(30), "avh-c06-end-behind-frames", move || -> Result<Option<String>, String> {
+        let mut conn = conn;
+        let ch = conn.open_channel(None).map_err(|e| format!("open_channel: {:?}", e))?;
+        let consumer = ch.basic_consume("q", ConsumerOptions::default()).map_err(|e| format!("basic_consume: {:?}", e))?;
+        let mut bytes = Vec::new();
+        for f in content_frames(
+            ch.channel_id(),
+            AMQPClass::Basic(basic::AMQPMethod::Deliver(basic::Deliver {
+                consumer_tag: consumer.consumer_tag().to_string(),
+                delivery_tag: 1,
+                redelivered: false,
+                exchange: String::new(),
+                routing_key: "k".into(),
+            })),
+            &amiquip::AmqpProperties::default(),
+            b"last words",
+            &[1000],
+        ) {
+            bytes.extend_from_slice(&encode(&f));
+        }
+        // let the I/O thread finish the iteration that wrote basic.consume and park in poll: a
+        // re-registration of the socket (as after a write) re-arms the readiness edge and would
+        // rescue what the read left behind
+        std::thread::sleep(Duration::from_millis(400));
+        w2.push_items(vec![crate::wire::InItem::Data(bytes), crate::wire::InItem::Eof]);
+        match consumer.receiver().recv_timeout(Duration::from_secs(5)) {
+            Ok(ConsumerMessage::Delivery(_)) => {}
+            other => return Err(format!("the delivery ahead of the end of the stream did not arrive: {:?}", other.map(|_| "another message"))),
+        }
+        let second = consumer.receiver().recv_timeout(Duration::from_secs(5));
+        if std::env::var("AVH_DEBUG").is_ok() {
+            let st_dropped = w2.is_dropped();
+            let io = w2.io_thread();
+            std::thread::sleep(Duration::from_millis(200));
+            let panics = io.map(|t| crate::run::take_panics(t)).unwrap_or_default();
+            eprintln!("c06 end-behind-frames: second message {:?} transport dropped={} panics={:?}", second, st_dropped, panics.iter().map(|p| format!("{} at {}", p.message, p.location)).collect::<Vec<_>>());
+        }
+        let verdict = match second {
+            Err(crossbeam_channel::RecvTimeoutError::Timeout) => Some(
+                "end to end (a delivery and the end of the stream readable at once): 5 s later the consumer had not been told that the connection is gone".to_string(),
+            ),
+            _ => None,
+        };
+        std::mem::forget(consumer);
+        let _ = conn.close();
+        drop(ch);
+        Ok(verdict)
+    });
+    let _ = sess.broker.stop();
+    match res {
+        Some(r) => r,
+        None => {
+            wire.push_eof();
+            Err("the confirmation session did not finish".into())
+        }
+    }
+}
+
 pub fn exec(c: &Case) -> Outcome {
     let (bytes, refs, end, term, malformed_at) = build(c);
     let mut spans = false;
     let mut big = false;
+    let mut compensated = false;
     let mut results = Vec::new();
     for (name, cuts) in [("cuts_a", &c.cuts_a), ("cuts_b", &c.cuts_b)] {
         let r = match catch(std::panic::AssertUnwindSafe(|| drive(&bytes, cuts, end))) {
             Ok(r) => r,
             Err(p) => return Outcome::fail("frame-buffer-panic", format!("[{}] {} at {}", name, p.message, p.location)),
         };
+        // "as soon as its last byte has arrived": whatever the transport gives without would-block
+        // has arrived; a call that returns before would-block leaves it to a caller that may never
+        // come back (see early_return_confirmed)
+        if let Some((at, late, end_late)) = r.early_return {
+            match early_return_confirmed(late > 0) {
+                Ok(Some(e2e)) => {
+                    return Outcome::fail(
+                        "frame-handed-over-late",
+                        format!(
+                            "[{}] read_from returned Ok after {} bytes although the transport had not answered would-block; {} frame(s){} whose bytes had already arrived were only dealt with by a further call, which a caller woken by readiness edges never makes\n{}",
+                            name,
+                            at,
+                            late,
+                            if end_late { " and the error that ends the stream" } else { "" },
+                            e2e
+                        ),
+                    )
+                }
+                Ok(None) => compensated = true,
+                Err(i) => {
+                    return Outcome {
+                        inconclusive: Some(format!("early return of read_from could not be put to a live session: {}", i)),
+                        ..Default::default()
+                    }
+                }
+            }
+        }
         if let Err((s, m)) = judge(name, &r, &refs, &term, malformed_at, bytes.len()) {
             return Outcome::fail(s, m);
         }
         // non-triviality: some frame spans >= 2 read calls' worth of supplied bytes
         let mut start = 0usize;
         for (e, _) in &refs {
-            if r.calls.iter().any(|(s, _, _)| *s > start && *s < *e) {
+            // calls are ordered by bytes supplied: the first call boundary behind `start`
+            let k = r.calls.partition_point(|(s, _, _)| *s <= start);
+            if r.calls.get(k).map_or(false, |(s, _, _)| *s < *e) {
                 spans = true;
             }
             if e - start > 4096 {
@@ -389,6 +570,9 @@ pub fn exec(c: &Case) -> Outcome {
     }
     if big {
         o.labels.push("frame-over-4096".into());
+    }
+    if compensated {
+        o.labels.push("early-return-made-good-by-the-io-loop".into());
     }
     o.labels.push(format!("tail-{}", match &c.tail {
         Tail::Quiet => "quiet",
@@ -479,6 +663,90 @@ fn fuzz_case(mut c: Case) -> Case {
     c.cuts_a.truncate(12);
     c.cuts_b.truncate(12);
     c
+}
+
+// ---------------------------------------------------------------------------------------------
+// part `burst`: the same oracle over long streams - a short unit of frames repeated until the
+// stream is tens to hundreds of KiB and up to several thousand frames long, mostly read without
+// any would-block in between, which is how a prefetch burst reaches a client that is a little late.
+
+#[derive(Clone, Debug, Serialize, Deserialize, PartialEq)]
+pub struct BCase {
+    pub unit: Vec<FrameSpec>,
+    pub reps: u16,
+    pub tail: Tail,
+    pub cuts_a: Vec<(u16, bool)>,
+    pub cuts_b: Vec<(u16, bool)>,
+}
+
+const BURST_MAX_BYTES: usize = 400 * 1024;
+
+pub fn exec_burst(c: &BCase) -> Outcome {
+    let unit_len: usize = c.unit.iter().map(|s| encode(&spec_frame(s)).len()).sum();
+    let reps = (c.reps as usize).min(BURST_MAX_BYTES / unit_len.max(1)).max(1);
+    let mut frames = Vec::with_capacity(reps * c.unit.len());
+    for _ in 0..reps {
+        frames.extend(c.unit.iter().cloned());
+    }
+    let n_frames = frames.len();
+    let big = Case {
+        frames,
+        tail: c.tail.clone(),
+        cuts_a: c.cuts_a.clone(),
+        cuts_b: c.cuts_b.clone(),
+    };
+    let mut o = exec(&big);
+    let bytes = unit_len * reps;
+    let never_blocks = |cuts: &Vec<(u16, bool)>| cuts.iter().all(|(_, b)| !*b);
+    o.nontrivial = o.fail.is_none() && (bytes >= 65536 || n_frames >= 1024);
+    if bytes >= 65536 {
+        o.labels.push("stream-of-64KiB-or-more".into());
+    }
+    if bytes >= 262144 {
+        o.labels.push("stream-of-256KiB-or-more".into());
+    }
+    if n_frames >= 1024 {
+        o.labels.push("1024-frames-or-more".into());
+    }
+    if n_frames >= 4096 {
+        o.labels.push("4096-frames-or-more".into());
+    }
+    if never_blocks(&c.cuts_a) || never_blocks(&c.cuts_b) {
+        o.labels.push("no-would-block-before-the-end".into());
+    }
+    o
+}
+
+fn bstrat(_t: Tier) -> BoxedStrategy<BCase> {
+    let tail = prop_oneof![
+        4 => Just(Tail::Quiet),
+        1 => any::<u8>().prop_map(Tail::BadType),
+        1 => (0u8..40).prop_map(|partial| Tail::Eof { partial }),
+        1 => (prop::sample::select(IoKind::ALL.to_vec()), 0u8..40).prop_map(|(kind, partial)| Tail::IoErr { kind, partial }),
+    ];
+    let cuts = || {
+        prop_oneof![
+            1 => Just(Vec::new()),
+            3 => vec((any::<u16>(), Just(false)), 1..5),
+            2 => vec((any::<u16>(), prop::bool::weighted(0.2)), 1..12),
+        ]
+    };
+    let ch = prop_oneof![1 => Just(0u16), 4 => 1u16..5];
+    let small = prop_oneof![
+        3 => (ch.clone(), 0u32..40, any::<u8>()).prop_map(|(ch, len, salt)| FrameSpec::Body { ch, len, salt }),
+        2 => (ch.clone(), prop_oneof![2 => 3000u32..4200, 1 => 0u32..20_000], any::<u8>()).prop_map(|(ch, len, salt)| FrameSpec::Body { ch, len, salt }),
+        1 => Just(FrameSpec::Heartbeat),
+        2 => frame_spec(),
+    ];
+    (vec(small, 1..4), prop_oneof![1 => 1u16..400, 2 => 400u16..6000], tail, cuts(), cuts())
+        .prop_map(|(unit, reps, tail, cuts_a, cuts_b)| BCase {
+            unit,
+            reps,
+            tail,
+            cuts_a,
+            cuts_b,
+        })
+        .boxed()
 }
 
 // ---------------------------------------------------------------------------------------------
@@ -792,6 +1060,19 @@ pub fn parts() -> Vec<Box<dyn PartDyn>> {
         confirm_runs: 1,
             fuzz: Some(fuzz_case),
             watchdog_s: 0,
+    }),
+    Box::new(Part::<BCase> {
+        name: "burst",
+        rule: "long streams: a unit of 1-3 real frames (mostly small or 3-20 KB body frames) repeated up to 6000 times, at most 400 KiB, ended like the probe streams, fed to FrameBuffer::read_from under two cut scripts of which most never answer would-block before the end (one read after the other, chunk sizes 1-8, 4096 or random); oracle: as for `probe`, in particular a read_from call may only return Ok once the transport has answered would-block - whatever it gives before that has arrived, and a caller woken by readiness edges does not come back for it; non-trivial = the stream is at least 64 KiB or at least 1024 frames long; distinct by case hash",
+        cases: |t| t.pick(1500, 40_000),
+        threads: 16,
+        strategy: bstrat,
+        exec: exec_burst,
+        enumerate: None,
+        shrink_budget: 300,
+        confirm_runs: 1,
+        fuzz: None,
+        watchdog_s: 0,
     }),
     Box::new(Part::<SCase> {
         name: "session",
